@@ -4,7 +4,6 @@ import (
 	"fmt"
 	"math/big"
 	"net/http"
-	"os"
 	"strings"
 
 	"verif/harness/kit"
@@ -201,114 +200,19 @@ func Classify(c Case) (bool, []string) {
 
 // Known findings --------------------------------------------------------------------------------------
 
-// Class predicates of the genuine defects this check found on the repaired tree (reported, not repaired by
-// this package). Exclude is honoured by the kit only while known_findings.json lists the id as "known".
-const (
-	findKindString      = "F31" // format-typed strings whose Go type has kind string (uuid, email, ipv4, password ...) are always rejected
-	findIntArrayDef     = "F32" // array default with an integer item >= 10^6 in magnitude is rendered with an exponent and rejected
-	findDurationZero    = "F33" // absent or empty string/duration parameter without default is rejected
-	findByteStd         = "F34" // string/byte literal in the standard base64 alphabet containing '+' or '/' is rejected
-	findFile400         = "F35" // a missing required file parameter is answered 400 (parse error), not 422
-	findKindStringItems = "F36" // arrays whose items have such a format: every item rejected; item formats are never validated
-)
+// findKindStringItems is the one finding of this property that is recorded as known (not repaired): arrays
+// whose items declare a registered string format whose Go type has kind string (uuid, email, ipv4, password
+// ...). The items validator of go-openapi/validate never checks the item format, so an invalid item text is
+// bound instead of rejected. Exclude is honoured by the kit only while known_findings.json lists it as known.
+const findKindStringItems = "F36"
 
-// findingClass names a known finding whose class the case belongs to (a case may belong to several).
 func findingClass(c Case) string {
-	ids := findingClasses(c)
-	for _, id := range ids {
-		if kit.IsKnown(id) {
-			return id
+	for _, d := range c.Decls {
+		if d.isArray() && kindStringFormat(d.ItemType, d.ItemFormat) {
+			return findKindStringItems
 		}
-	}
-	if len(ids) > 0 {
-		return ids[0]
 	}
 	return ""
-}
-
-func findingClasses(c Case) []string {
-	set := map[string]bool{}
-	findingClassesInto(c, set)
-	return sortedKeys(set)
-}
-
-func findingClassesInto(c Case, set map[string]bool) {
-	for i, d := range c.Decls {
-		tpe, format := d.Type, d.Format
-		if d.isArray() {
-			tpe, format = d.ItemType, d.ItemFormat
-		}
-		if kindStringFormat(tpe, format) {
-			if d.isArray() {
-				set[findKindStringItems] = true
-			} else {
-				set[findKindString] = true
-			}
-		}
-		if d.Type == "file" && d.Required {
-			for _, r := range c.Reqs {
-				if r.Sent[i].File == nil {
-					set[findFile400] = true
-				}
-			}
-		}
-		if d.isArray() && d.ItemType == "integer" && d.Default != "" {
-			for _, it := range strings.Split(strings.Trim(d.Default, "[]"), ",") {
-				if bi, ok := new(big.Int).SetString(strings.TrimSpace(it), 10); ok && new(big.Int).Abs(bi).Cmp(big.NewInt(1000000)) >= 0 {
-					set[findIntArrayDef] = true
-				}
-			}
-		}
-		if tpe == "string" && format == "duration" {
-			for _, r := range c.Reqs {
-				vals := r.Sent[i].vals()
-				if d.isArray() {
-					if d.multi() {
-						for _, v := range vals {
-							if v == "" {
-								set[findDurationZero] = true
-							}
-						}
-					}
-					continue
-				}
-				if last(vals) == "" && d.Default == "" {
-					set[findDurationZero] = true
-				}
-			}
-		}
-		if tpe == "string" && format == "byte" {
-			for _, r := range c.Reqs {
-				for _, v := range r.Sent[i].vals() {
-					if strings.ContainsAny(v, "+/") {
-						set[findByteStd] = true
-					}
-				}
-			}
-		}
-	}
-}
-
-// devAssumeKnown (development only, like VERIF_SCALE): VERIF_DEV_ASSUME_KNOWN=F31,F32 makes the generated tier
-// skip the classes of these findings before known_findings.json lists them, so that the rest of the domain
-// can be explored. Registered commands never set it.
-func devAssumeKnown(check func(Case) *kit.Violation) func(Case) *kit.Violation {
-	list := os.Getenv("VERIF_DEV_ASSUME_KNOWN")
-	if list == "" {
-		return check
-	}
-	ids := map[string]bool{}
-	for _, id := range strings.Split(list, ",") {
-		ids[strings.TrimSpace(id)] = true
-	}
-	return func(c Case) *kit.Violation {
-		for _, id := range findingClasses(c) {
-			if ids[id] {
-				return nil
-			}
-		}
-		return check(c)
-	}
 }
 
 const ruleCommon = "declarations over {path, query, header, formData urlencoded+multipart} x {string (+date, date-time, byte, uuid, duration, email, ipv4, password, unregistered format), integer (none, int8..int64), number (none, float, double), boolean, arrays of those with csv/ssv/tsv/pipes/none and multi (query, formData), file} x required x default x allowEmptyValue x min/max/enum/length/items validations; per request and parameter: absent / empty / 1-3 occurrences from literal tables (every integer width: +-2^(n-1) and +-1 around, signs, leading zeros, blanks, 1_0, 0x10, 1e3, fullwidth digits, 23 digits; floats: decimal/hex/exponent forms, inf/NaN, float32 and float64 range and rounding edges, subnormals), header names in canonical/lower/upper/mixed case, decoy keys in another letter case; non-trivial = a boundary literal, or absent/empty with a default, or a repeated key, or an array with >= 2 items or an empty item, or a non-canonical header name"
@@ -316,8 +220,8 @@ const ruleCommon = "declarations over {path, query, header, formData urlencoded+
 func Props() []kit.Runner {
 	return []kit.Runner{
 		kit.Prop[Case]{ID: "C03", Name: "direct", Rule: "binder-direct (map target vs model, struct target vs map target), 1-4 declarations x 1-3 requests; " + ruleCommon,
-			Quick: 20000, Thorough: 200000, Gen: GenDirect, Check: devAssumeKnown(CheckDirect), Classify: Classify, Exclude: findingClass, SampleLimit: 1200},
+			Quick: 20000, Thorough: 120000, Gen: GenDirect, Check: CheckDirect, Classify: Classify, Exclude: findingClass, SampleLimit: 1200},
 		kit.Prop[Case]{ID: "C03", Name: "full", Rule: "full stack (description -> untyped API -> Context.APIHandler), 1-5 declarations x 8 requests per loaded API; " + ruleCommon,
-			Quick: 2000, Thorough: 10000, Gen: GenFull, Check: devAssumeKnown(CheckFull), Classify: Classify, Exclude: findingClass, SampleLimit: 1200},
+			Quick: 2000, Thorough: 6000, Gen: GenFull, Check: CheckFull, Classify: Classify, Exclude: findingClass, SampleLimit: 1200},
 	}
 }
